@@ -8,6 +8,12 @@ extern "C" {
 }
 #include <math.h>
 #include <vector>
+/* the array buffers are C objects with a hand-made vtable: UBSan's C++ vptr check cannot accept them, so the
+ * C++ sources under test are compiled into this driver (found through the include path of the tree under
+ * test) with that one check switched off (link_extra = -fno-sanitize=vptr) */
+#include "array.cpp"
+#include "linepart.cpp"
+#include "polyline.cpp"
 #include "values.h"
 
 using namespace mpt;
